@@ -31,6 +31,9 @@ def run(prog, tier):
     from .common import borrow
     shared = borrow(prog, tier, "C10", {"builder-vs-pairwise", "changepoint-siblings", "composite-structure", "pairwise-axes"}, "kernel-siblings-agree",
                     "the posterior formula pairs K_xx (builder) with K_qx, K_qq (pairwise call) of the same kernel")
+    # ... and m(x) (build_mean, inside alpha) with m(q) (the pairwise call of the same mean function): one mean function, not two
+    shared += borrow(prog, tier, "C10", {"mean-sibling"}, "mean-siblings-agree",
+                     "the posterior formula uses one mean function m: build_mean on the data and __call__ at the query must be the same function")
     obs, info = [], []
     obs.extend(shared)
     problems = []
@@ -42,7 +45,7 @@ def run(prog, tier):
     from .axrules import gp_axis_obligations
     early = early + gp_axis_obligations(prog, "axis-order", ["__call__", "build_posterior"])
     from .gpm import routing_obligations
-    early = early + [o for o in routing_obligations(prog, "GpRegressor", "hyperparameter-routing", REL) if o.construct.endswith("set_hyperparameters")]
+    early = early + [o for o in routing_obligations(prog, "GpRegressor", "hyperparameter-routing", REL) if not any(k_ in o.construct for k_ in ("likelihood", "gradient", "spatial_derivatives", "loo_"))]
     obs.extend(early)
     try:
         return _run_rest(prog, tier, obs, info, problems)
